@@ -13,7 +13,7 @@ COMMON_NOTE = ("Trusted: CPython executing the real function objects on the symb
 # id -> (category, technique, text, design_ref)
 CHECKS = {
     "C01": ("other", "contract-based deductive verification of the real functions (VCs by symbolic execution of the code objects, z3/cvc5) + bounded list-of-rows stand-in",
-            "Proved for every row-length vector: the prefix-sum geometry built by RaggedShape.__init__, size, ravel/unravel_multi_index, index_array (four inductions), the constructor's size check, len/shape/lengths/size/ravel/astype, to_numpy_array, from_tuple_shape, iteration / tolist (the real generator run for an arbitrary iteration index k: row k has L(k) cells D[S(k)+c]; CPython's zip / generator protocol assumed). Bounded (exhaustive inside stated bounds, never counted as proved): dtype matrix, save/load round trip (np.savez/np.load assumed).", "0, 20, 11/C01"),
+            "Proved for every row-length vector: the prefix-sum geometry built by RaggedShape.__init__, size, ravel/unravel_multi_index, index_array (four inductions), the constructor's size check, len/shape/lengths/size/ravel/astype, to_numpy_array, from_tuple_shape, iteration / tolist (the real generator run for an arbitrary iteration index k: row k has L(k) cells D[S(k)+c]; CPython's zip / generator protocol assumed). the save/load round trip up to the file (save stores the flat data and the geometry codes, load rebuilds the same rows from exactly those; np.savez/np.load assumed to give back what was stored). Bounded (exhaustive inside stated bounds, never counted as proved): dtype matrix, the real file round trip.", "0, 20, 11/C01"),
     "C02": ("other", "contract-based deductive verification (incl. an inductive scan invariant for build_indices) + bounded Python-list-indexing stand-in",
             "Proved for all inputs: column-slice arithmetic for all 8 None/int kinds with symbolic bounds, steps and column step; integer column / element refusal; row selection on codes for int / slice / index array / mask; build_indices (scatter-then-scan, unbounded rows); get_shape / get_flat_indices preconditions; __getitem__ and _get_row_subset dispatch; and the composition mechanised for ra[rowslice, colslice]: the real chain __getitem__ -> view_rows -> col_slice -> ravel -> gather executed on a symbolic array (only get_flat_indices replaced by its proved contract) gives, cell by cell, Python list indexing - for rows selected by a slice (bounds / steps symbolic), an integer index array or a boolean mask, columns by a slice (bounds symbolic, step in {1,2,-1,-2,-3}) or none, and for the integer forms ra[i, j], ra[i], ra[i, a:b:s], ra[rows, j]. Combinations outside these are bounded.", "0, 20, 11/C02"),
     "C03": ("other", "contract-based deductive verification (address arithmetic shared with reads, scatter frame, XOR-scan broadcast) + bounded list-assignment stand-in",
